@@ -27,6 +27,56 @@ import (
 // practically always into an empty cache: not reachable that way.)
 const keyWarmLoad = "C06/warm-load-deletes-live-record-of-displaced-cached-id"
 
+// keyBatchLeftover: with the region storage on (the default) Storage.DeleteRegion goes to the embedded
+// LeveldbKV.Remove and does not look at RegionStorage.batchRegions, where SaveRegion buffers (written out
+// by the 100th save, 3 s after the last save, or Close). A region saved and displaced within one flush
+// window — heartbeats strictly one at a time — is written to leveldb by the next flush although it has
+// left the cache: "displaced regions disappear ... from storage as well whenever heartbeats are handled
+// one at a time" does not hold. A later load removes the leftover only if a stored region overlaps it
+// with version >= its own; otherwise (the displacing region has moved on and the heartbeat of the
+// successor was lost) a restarted PD serves the displaced region again.
+const keyBatchLeftover = "C06/region-storage-delete-ignores-unflushed-save"
+
+func TestFinding_RegionStorageDeleteIgnoresUnflushedSave(t *testing.T) {
+	f, err := newFixture(3, 0, rsOn)
+	if err != nil {
+		t.Logf("fixture: %v", err)
+		return
+	}
+	defer f.close()
+	beat := func(id uint64, start, end string, ver uint64) error {
+		h := &hb{ID: id, Start: start, End: end, Ver: ver, Conf: 1, Term: 1, SizeMB: 10, Keys: 10,
+			Peers: []speer{{ID: id*10 + 1, Store: 1}, {ID: id*10 + 2, Store: 2}, {ID: id*10 + 3, Store: 3}}, Leader: id*10 + 1}
+		return f.rc.VerifProcessRegionHeartbeat(h.region())
+	}
+	// region 1 = [a,m) and region 2 = [m,z) reported, then region 1 = [a,z) v2 (merge): all within one flush window
+	e1, e2, e3 := beat(1, "a", "m", 1), beat(2, "m", "z", 1), beat(1, "a", "z", 2)
+	servedBefore := f.rc.GetRegion(2) != nil
+	_, before, _ := f.rawRegions()
+	ferr := f.storage.Flush() // the flush timer fires
+	keys, vals, _ := f.rawRegions()
+	left := ""
+	for i, k := range keys {
+		if idOfKey(k) == 2 {
+			left = descMeta(vals[i])
+		}
+	}
+	// what a restarted pd serves when the successor's record is not there to outrank it: region 1 moves on to
+	// [a,f) v3 (split, the heartbeat of the right half is lost), clean shutdown, restart
+	e4 := beat(1, "a", "f", 3)
+	rerr := f.reopen(false)
+	if rerr == nil {
+		rerr = f.restart(true)
+	}
+	again := "nothing"
+	if r := f.rc.GetRegion(2); r != nil {
+		again = fmt.Sprintf("{id=2 [%q,%q) v%d}", r.GetStartKey(), r.GetEndKey(), r.GetRegionEpoch().GetVersion())
+	}
+	vkit.Finding(t, keyBatchLeftover, left != "",
+		fmt.Sprintf("region storage on; sequential heartbeats 1:[a,m) v1, 2:[m,z) v1, 1:[a,z) v2 (errors %v %v %v); region 2 still cached = %v; leveldb before the flush holds %d records; Storage.Flush() = %v; afterwards leveldb holds %d records, record of the displaced region 2: %q (expected none); then 1:[a,f) v3 (%v), Storage.Close, restart (%v): region 2 served again = %s",
+			e1, e2, e3, servedBefore, len(before), ferr, len(keys), left, e4, rerr, again))
+}
+
 func TestFinding_WarmLoadDeletesLiveRecord(t *testing.T) {
 	f, err := newFixture(3, 0, rsNone)
 	if err != nil {
